@@ -139,6 +139,33 @@ impl StackObjectRef {
     }
 }
 
+impl Drop for StackObjectRef {
+    /// drop the object graph below this handle without recursing once per nesting level.
+    ///
+    /// collapsing a very long program nests tuples thousands of levels deep; the
+    /// compiler-generated recursive drop of that chain overflows a 2 MiB thread stack
+    /// in unoptimised builds. children are therefore unlinked iteratively: only
+    /// objects this handle is the last owner of are taken apart, shared ones just
+    /// lose one reference.
+    fn drop(&mut self) {
+        if Rc::strong_count(&self.0) != 1 {
+            return;
+        }
+        let mut pending = match self.0.try_borrow_mut() {
+            Ok(mut obj) => obj.take_children(),
+            Err(_) => return,
+        };
+        while let Some(child) = pending.pop() {
+            if Rc::strong_count(&child.0) == 1 {
+                if let Ok(mut obj) = child.0.try_borrow_mut() {
+                    pending.append(&mut obj.take_children());
+                }
+            }
+            // `child` goes out of scope here with no children left (or still shared)
+        }
+    }
+}
+
 impl Hash for StackObjectRef {
     fn hash<H: Hasher>(&self, state: &mut H) {
         // Use pointer-based hashing to avoid infinite recursion with circular references
@@ -214,6 +241,23 @@ pub enum StackObject {
     /// Generic placeholder for unimplemented types
     #[allow(dead_code)]
     Any,
+}
+
+impl StackObject {
+    /// move the direct children out of a container object, leaving a leaf behind.
+    fn take_children(&mut self) -> Vec<StackObjectRef> {
+        match std::mem::replace(self, StackObject::None) {
+            StackObject::List(items) | StackObject::Tuple(items) => items,
+            StackObject::Dict(map) => map.into_iter().flat_map(|(k, v)| [k, v]).collect(),
+            StackObject::Set(items) | StackObject::FrozenSet(items) => items.into_iter().collect(),
+            StackObject::Callable(inner) => vec![inner],
+            StackObject::Instance(inst) => vec![inst.callable, inst.args],
+            leaf => {
+                *self = leaf;
+                Vec::new()
+            }
+        }
+    }
 }
 
 impl Hash for StackObject {
